@@ -63,22 +63,11 @@ def run_items(run, items, fname, rng, trials=10, tol=1e-8):
             run.not_proved.append(f"{it.name}: numeric path ({type(e).__name__}); tolerance test only, passed")
     if not terms:
         return
-    res, out = run.coq_bools(fname + "_triage.v", HEADER, terms, timeout=1500)
+    res, okc = run.prove_bools(fname, HEADER, terms, timeout=1500)
     if res is None:
-        run.find("coq:" + fname, "generated obligations do not compile", {"log": out[-1500:]}, concrete=False)
+        run.find("coq:" + fname, "generated obligations do not compile", concrete=False)
         return
-    good = [(n_, t) for n_, t in terms if res[n_]]
     bad = [(n_, t) for n_, t in terms if not res[n_]]
-    thms = []
-    for n_, t in good:
-        chk, body = t.split(" ", 1)
-        thms.append((f"ok_{n_}", f"{chk} {body} = true", "vm_compute; reflexivity."))
-    if thms:
-        ok, out2 = run.coq_theorems(fname + "_theorems.v", HEADER, thms, timeout=1500)
-        for n_, _ in good:
-            run.oblige(n_, ok)
-        if not ok:
-            run.find("coq:" + fname + "_theorems", "theorem file does not compile", {"log": out2[-1500:]}, concrete=False)
     seen = set()
     for n_, _ in bad:
         it = meta[n_]
